@@ -524,3 +524,39 @@ func handlerScratchIsPerRequestRule(r *Run, pkg string, ctor string, consequence
 	}
 	r.ok(ctor+":handler:scratch-is-per-request", r.fpos(f), fmt.Sprintf("%d appends in the handler and its closures, none onto memory captured from the constructor", nApp))
 }
+
+// valueIsParamNamed: v is the parameter `name` of its function, or a parameter of an unexported helper that every
+// static caller hands such a parameter (two levels).
+func valueIsParamNamed(v ssa.Value, name string) bool {
+	var rec func(v ssa.Value, d int) bool
+	rec = func(v ssa.Value, d int) bool {
+		p, ok := stripValue(v).(*ssa.Parameter)
+		if !ok {
+			return false
+		}
+		if p.Name() == name {
+			return true
+		}
+		g := p.Parent()
+		if d >= 2 || g == nil || g.Object() == nil || g.Object().Exported() {
+			return false
+		}
+		idx := -1
+		for i, q := range g.Params {
+			if q == p {
+				idx = i
+			}
+		}
+		calls := staticCallersOf(g)
+		if idx < 0 || len(calls) == 0 {
+			return false
+		}
+		for _, c := range calls {
+			if idx >= len(c.Call.Args) || !rec(c.Call.Args[idx], d+1) {
+				return false
+			}
+		}
+		return true
+	}
+	return rec(v, 0)
+}
